@@ -311,6 +311,12 @@ class Ctx:
         self.trusted = []
         self.coq = None
         self.hypotheses = {}
+        self.pending = []         # broken proof obligations / correspondences, resolved in finish()
+
+    def soft(self, key, what, replay):
+        """a proof obligation or a correspondence no longer checks (not by itself a failing input)"""
+        if not any(p[0] == key for p in self.pending):
+            self.pending.append((key, what, replay))
 
     # ---- bookkeeping
     def count(self, case, nontrivial=True):
@@ -345,6 +351,16 @@ class Ctx:
         return True
 
     def finish(self, level='proof', text_extra=None):
+        if self.coq is not None and not self.coq['ok']:
+            self.soft('proof:' + ','.join(self.coq['broken']),
+                      'theorem(s) no longer check: %s' % ', '.join(self.coq['broken']),
+                      {'broken': self.coq['broken'], 'coqc_log_tail': self.coq['log'][-3000:]})
+        if self.pending and not self.violations:
+            # nothing concrete was found by the directed search: still a violation, named as such
+            for key, what, replay in self.pending[:5]:
+                self.report(key, what, replay, no_input=True)
+        elif self.pending:
+            self.notes.append('also broken (a failing input was found, reported above): ' + '; '.join(p[0] for p in self.pending[:10]))
         cov = {
             'evaluations': max(self.evaluations, 1),
             'distinct_nontrivial': len(self.distinct),
@@ -390,12 +406,9 @@ class Ctx:
         self.coq = coq_check(self.pid, timeout=timeout)
         return self.coq['ok']
 
-    def proof_failure(self, found_input):
-        """called after the directed search when the proof obligations did not check"""
-        if not self.coq['ok'] and not found_input:
-            self.report('proof:' + ','.join(self.coq['broken']),
-                        'theorem(s) no longer check: %s' % ', '.join(self.coq['broken']),
-                        {'broken': self.coq['broken'], 'coqc_log_tail': self.coq['log'][-3000:]}, no_input=True)
+    def proof_failure(self, found_input=None):
+        """kept for callers: broken proofs are resolved in finish()"""
+        return
 
     def correspond(self, cases, impl_out, model_out, opname='correspondence'):
         """compare implementation and model line by line; returns the list of disagreeing indices"""
